@@ -57,6 +57,8 @@ def run(ctx):
     ctx.doc('C09.3', 'lock/unlock/status forward to fe->mutex / fe->status; init makes both condition variables and the mutex')
     for fl in flavours(ctx):
         ctx.unit = fl
+        ctx.doc('C09.5', 'native API forwarding: each public entry point of this property reaches the implementation of the same name with its parameters in order and returns its result (sibling slips such as trylock -> lock, signal -> broadcast, swapped arguments)')
+        lib.native_forwarding(ctx, 'C09.5', fl, lambda n: n.startswith(('myth_felock_', 'myth_felockattr_')), floor=6)
         rule_init_complete(ctx, fl)
         v = ctx.view(NATIVE, roots=['myth_felock_wait_and_lock_body', 'myth_felock_mark_and_signal_body', 'myth_felock_lock_body',
                                     'myth_felock_unlock_body', 'myth_felock_init_body', 'myth_felock_status_body'],
@@ -131,6 +133,8 @@ def run(ctx):
 
 SYNC = 'src/myth_sync_func.h'
 MUTANTS = [
+    {'name': 'native myth_felock_unlock forwards to lock', 'expect': 'C09.5',
+     'edits': [('src/myth_if_native.c', "  return myth_felock_unlock_body(fe);", "  return myth_felock_lock_body(fe);")]},
     {'name': 'felock_init forgets the status', 'expect': 'C09.4',
      'edits': [(SYNC, '  myth_cond_init_body(&fe->cond[1], 0);\n  fe->status = 0;\n', '  myth_cond_init_body(&fe->cond[1], 0);\n')]},
     {'name': 'signal after unlock', 'expect': 'C09.2',
